@@ -182,7 +182,11 @@ func (op *localFileOp) lockHelper(
 		})
 	}
 	if !loaded {
-		return os.ErrNotExist
+		// The entry was removed from the map (evicted or deleted) after
+		// reloadFileEntryHelper saw it. Eviction and refused deletes leave
+		// persisted files on disk, so retry instead of reporting a spurious
+		// os.ErrNotExist: the reload fails if the file is really gone.
+		return op.lockHelper(name, l, f)
 	}
 	return err
 }
